@@ -294,17 +294,25 @@ def reduceMeanRows (U : Nat) (m : List (List Rat)) : List Rat :=
   (List.range U).map fun u => meanL (m.map (fun row => getR row u))
 
 /-- divisibility / shape checks of `CDF.build` and `_verify_cdf_params` (`ValueError`), in the order of
-`_verify_cdf_params`; a location / kernel tensor without keypoints (`shape[2] < 1`) is rejected with the
-other shape checks (current tree, fixes 4d4b844 / 575725d). `.error .other` stands for the two places
-where the real code does NOT raise a `ValueError`: a zero sparsity factor (`ZeroDivisionError`) and an
-input without columns (mean over an empty axis) -/
+`_verify_cdf_params`; a sparsity factor below 1 is rejected first (`CDF.__init__`, fix 1677739, and
+`_verify_cdf_params`, fix 75478be: `if sparsity_factor < 1: raise ValueError`; before them factor 0 was a
+`ZeroDivisionError` of `units % sparsity_factor`); a location / kernel tensor without keypoints
+(`shape[2] < 1`) is rejected with the other shape checks (current tree, fixes 4d4b844 / 575725d).
+`.error .other` stands for the one place left where the real code does NOT raise a `ValueError` but
+does not return numbers either: an input without columns (`reduce_mean` over an empty axis: NaN).
+Here the factor is already a natural number; `sparsityOf` below is the step from the Python `int`. -/
 def verifyCdf (f I U K W locI : Nat) : Except Err Unit :=
-  if f = 0 then .error .other
+  if f = 0 then .error .valueError
   else if U % f ≠ 0 then .error .valueError
   else if I % f ≠ 0 then .error .valueError
   else if locI ≠ I ∨ K = 0 ∨ W ≠ U / f then .error .valueError
   else if I = 0 then .error .other
   else .ok ()
+
+/-- `if sparsity_factor < 1: raise ValueError(…)` on the Python `int` the caller passed (zero and
+negative factors alike); an accepted factor is the natural number the rest of the model computes with -/
+def sparsityOf (f : Int) : Except Err Nat :=
+  if f < 1 then .error .valueError else .ok f.toNat
 
 /-- reduction stage shared by both code paths: `'none'` returns the `(input_dim / factor, units)`
 matrix, `'mean'` its column means (as a single row) -/
@@ -328,6 +336,23 @@ def cdfFn (a : Activation) (σ : Rat → Rat) (red : Reduction) (f U : Nat)
     (x : List Rat) : Except Err (List (List Rat)) := do
   verifyCdf f x.length U K W loc.length
   pure (reduceStage red f x.length U (fnCdfs a σ scaling loc K W x))
+
+/-- `CDF(…, sparsity_factor=f)(x)` with the factor as the Python `int` handed to the constructor:
+`__init__` checks `num_keypoints < 1 or units < 1`, then `sparsity_factor < 1` (both `ValueError`), `build` /
+`call` follow -/
+def layerCallZ (a : Activation) (σ : Rat → Rat) (red : Reduction) (f : Int) (U : Nat) (scale : List Rat)
+    (kernel : List (List (List Rat))) (K W : Nat) (x : List Rat) : Except Err (List (List Rat)) := do
+  if K = 0 ∨ U = 0 then .error .valueError
+  let f ← sparsityOf f
+  layerCall a σ red f U scale kernel K W x
+
+/-- `cdf_fn(…, sparsity_factor=f)` with the factor as the Python `int` of the call: `_verify_cdf_params`
+rejects `sparsity_factor < 1` before it divides by it -/
+def cdfFnZ (a : Activation) (σ : Rat → Rat) (red : Reduction) (f : Int) (U : Nat)
+    (scaling : Option (List (List (List Rat)))) (loc : List (List (List Rat))) (K W : Nat)
+    (x : List Rat) : Except Err (List (List Rat)) := do
+  let f ← sparsityOf f
+  cdfFn a σ red f U scaling loc K W x
 
 /-- `keras.constraints.NonNeg` on the learned input scaling: `w * cast(w >= 0)` -/
 def nonNeg (scale : List Rat) : List Rat := scale.map (fun w => if 0 ≤ w then w else 0)
